@@ -166,12 +166,15 @@ def structShape : Nat → Ast → Bool
      | .LIT_INTSET | .ID_GLOBAL | .BOOLEAN | .DECART | .NT_ENUMERATION => true
      | _ => false) && a.kids.all (structShape n)
 
-/-- iterate `step` until the type no longer changes (at most `r` rounds) -/
-def fixRounds (step : Ty → IR Ty) : Nat → Ty → IR Ty
+/-- the join chain of a recursion variable: join the type of the step (variable at `τ`) into `τ` until
+`τ` no longer grows (at most `r` rounds); no join = no type -/
+def joinRounds (te : TraitEnv) (step : Ty → IR Ty) : Nat → Ty → IR Ty
   | 0, _ => .unknown
   | r+1, τ => do
     let t' ← step τ
-    if t' == τ then pure τ else fixRounds step r t'
+    match merge te t' τ with
+    | none => .ill
+    | some τ' => if τ' == τ then pure τ else joinRounds te step r τ'
 
 mutual
 /-- type of an expression in environment `Δ` -/
@@ -253,19 +256,19 @@ def infer (Γ : Ctx) : Nat → Env → Ast → IR ExprTy
       let tb ← infer Γ n Δ0 body
       let tb ← needTy tb
       if !compat Γ.traits tb t0 then .ill else
-      -- the variable's type is the fixed point of typing the step expression, starting from
-      -- the type of the first step
-      let τ ← fixRounds (fun τ => do
+      -- the variable holds the initial value first and the values of the step afterwards: its type
+      -- is the least type above both that the step stays within
+      match merge Γ.traits tb t0 with
+      | none => .ill
+      | some v0 =>
+      let τ ← joinRounds Γ.traits (fun τ => do
           let Δτ ← bindDecl n Δ decl τ
           let t' ← infer Γ n Δτ body
-          needTy t') 5 tb
+          needTy t') 5 v0
       if full then
         let Δτ ← bindDecl n Δ decl τ
         let _ ← infer Γ n Δτ (← kid 2)
-      -- the value is the initial one when no step is made: the principal type joins both
-      match merge Γ.traits τ t0 with
-      | some m => pure (.ty m)
-      | none => .ill
+      pure (.ty τ)
     | .DECART => do
       let ts ← inferSets Γ n Δ e.kids
       if ts.length < 2 then .ill else pure (.ty (.coll (.tuple ts)))
